@@ -1069,3 +1069,21 @@ Proof.
     destruct (c =? 63) eqn:E63; [apply Z.eqb_eq in E63; tauto|]. cbn [orb].
     rewrite andb_true_iff, Z.eqb_eq, (IH Hp s'). split; [intros [-> ->]; reflexivity | intros H; inversion H; auto].
 Qed.
+
+(* option names are case-insensitive: the classification depends only on the lower-cased name *)
+Lemma as_opt_kind_case n n' : map ascii_lower n = map ascii_lower n' -> as_opt_kind n = as_opt_kind n'.
+Proof. unfold as_opt_kind. intros ->. reflexivity. Qed.
+
+Lemma ascii_lower_idem c : ascii_lower (ascii_lower c) = ascii_lower c.
+Proof.
+  unfold ascii_lower. destruct ((65 <=? c) && (c <=? 90)) eqn:E.
+  - apply andb_true_iff in E as [E1 E2]. apply Z.leb_le in E1. apply Z.leb_le in E2.
+    destruct ((65 <=? c + 32) && (c + 32 <=? 90)) eqn:E'; [|reflexivity].
+    apply andb_true_iff in E' as [_ E3]. apply Z.leb_le in E3. lia.
+  - rewrite E. reflexivity.
+Qed.
+
+Lemma as_opt_kind_lower n : as_opt_kind (map ascii_lower n) = as_opt_kind n.
+Proof.
+  apply as_opt_kind_case. rewrite map_map. apply map_ext. intros c. apply ascii_lower_idem.
+Qed.
